@@ -709,8 +709,17 @@ func Origins(v ssa.Value, o OriginOpts) []ssa.Value {
 			}
 			switch a := x.X.(type) {
 			case *ssa.Alloc:
-				for _, s := range allocStores(a) {
-					walk(s, depth, ext)
+				if vals, zero, ok := ReachingStores(a, x); ok {
+					for _, s := range vals {
+						walk(s, depth, ext)
+					}
+					if zero {
+						leaf(zeroOf(a))
+					}
+				} else {
+					for _, s := range allocStores(a) {
+						walk(s, depth, ext)
+					}
 				}
 			case *ssa.FreeVar:
 				for _, s := range freeVarStores(o.Prog, a) {
@@ -1009,4 +1018,71 @@ func (p *Prog) DynValues(v ssa.Value) (concrete []ssa.Value, open []ssa.Value) {
 	}
 	walk(v, 0)
 	return
+}
+
+var zeroCache = map[*ssa.Alloc]*ssa.Const{}
+
+// zeroOf returns a constant standing for the zero value of the alloc's element type.
+func zeroOf(a *ssa.Alloc) ssa.Value {
+	if c, ok := zeroCache[a]; ok {
+		return c
+	}
+	c := ssa.NewConst(nil, a.Type().(*types.Pointer).Elem())
+	zeroCache[a] = c
+	return c
+}
+
+// ReachingStores computes, flow-sensitively, the values that the load `at` of local alloc a may
+// observe: the last store on every path from entry to `at`. zero reports that some path reaches
+// `at` without any store (the zero value). ok is false when a's address escapes (captured by a
+// closure, passed to a call, sliced, field-addressed), in which case the caller must fall back to a
+// flow-insensitive answer.
+func ReachingStores(a *ssa.Alloc, at ssa.Instruction) (vals []ssa.Value, zero bool, ok bool) {
+	refs := a.Referrers()
+	if refs == nil {
+		return nil, true, true
+	}
+	stores := map[ssa.Instruction]*ssa.Store{}
+	for _, r := range *refs {
+		switch x := r.(type) {
+		case *ssa.Store:
+			if x.Addr != ssa.Value(a) {
+				return nil, false, false // address stored somewhere
+			}
+			stores[x] = x
+		case *ssa.UnOp, *ssa.DebugRef:
+		default:
+			return nil, false, false
+		}
+	}
+	seenVal := map[ssa.Value]bool{}
+	visited := map[*ssa.BasicBlock]bool{}
+	var scanUp func(b *ssa.BasicBlock, from int)
+	scanUp = func(b *ssa.BasicBlock, from int) {
+		for i := from; i >= 0; i-- {
+			if st, isSt := stores[b.Instrs[i]]; isSt {
+				if !seenVal[st.Val] {
+					seenVal[st.Val] = true
+					vals = append(vals, st.Val)
+				}
+				return
+			}
+		}
+		if len(b.Preds) == 0 {
+			if b.Index == 0 {
+				zero = true
+			}
+			return
+		}
+		for _, p := range b.Preds {
+			if visited[p] {
+				continue
+			}
+			visited[p] = true
+			scanUp(p, len(p.Instrs)-1)
+		}
+	}
+	b := at.Block()
+	scanUp(b, InstrIndex(at)-1)
+	return vals, zero, true
 }
